@@ -1,7 +1,9 @@
 """Real AsyncSerialGateway / AsyncTCPGateway on fake asyncio transports and a virtual-time event loop."""
 import asyncio
 
-R = 10.0
+R = 10.0          # reconnect timeout in virtual seconds
+UNIT = 1.0 / 16   # one specification tick (exactly representable: no float trouble at the watchdog boundaries)
+RT = 160          # R in ticks
 
 
 class VLoop(asyncio.SelectorEventLoop):
@@ -85,6 +87,8 @@ def install(world, dev):
         tr = FakeAioTransport(world, len(world.conns), proto)
         world.conns.append(tr)
         loop.call_soon(proto.connection_made, tr)
+        if ok == "okerr":
+            loop.call_soon(tr.lose, ConnectionResetError("lost right after connecting"))
         await asyncio.sleep(0)
         return tr, proto
 
@@ -106,6 +110,8 @@ def install(world, dev):
         tr = FakeAioTransport(world, len(world.conns), proto)
         world.conns.append(tr)
         proto.connection_made(tr)
+        if ok == "okerr":
+            world.loop.call_soon(tr.lose, ConnectionResetError("lost right after connecting"))
         return tr, proto
     world.loop.create_connection = create_connection
 
@@ -140,10 +146,10 @@ class AsyncLink:
         self.start_task = self.w.loop.create_task(self.gw.start())
         self._drain()
 
-    def advance(self, dt, plan=()):
+    def advance(self, ticks, plan=()):
         self.w.plan += list(plan)
         # one jump, like the threaded world: whatever became due runs at the new time
-        self.w.loop.vnow = self.w.loop.vnow + dt
+        self.w.loop.vnow = self.w.loop.vnow + ticks * UNIT
         self._drain()
 
     def live(self):
@@ -186,8 +192,8 @@ class AsyncLink:
         made = [e for e in w.events if e[0] == "made"]
         lost = [e for e in w.events if e[0] == "lost"]
         probes = sum(1 for c in w.conns for (d, t) in c.written if d == b"0;255;3;0;2;\n")
-        return {"now": int(w.now), "made": len(made), "lost": len(lost), "lostexc": [1 if e[2] else 0 for e in lost],
-                "attempts": [int(t) for t in w.attempts], "nconn": len(w.conns), "live": len(self.live()),
+        return {"now": int(round(w.now / UNIT)), "made": len(made), "lost": len(lost), "lostexc": [1 if e[2] else 0 for e in lost],
+                "attempts": [int(round(t / UNIT)) for t in w.attempts], "nconn": len(w.conns), "live": len(self.live()),
                 "probes": probes, "after_stop": len(w.after_stop), "threads": 0, "quiescent": self.ok}
 
     def shutdown(self):
